@@ -135,6 +135,35 @@ mod adrv {
 
     type Walk = std::pin::Pin<Box<dyn futures::Stream<Item = VfsResult<AsyncVfsPath>> + Send>>;
 
+    /// future that returns Pending `n` times (waking itself) before Ready
+    struct PendN(usize);
+    impl std::future::Future for PendN {
+        type Output = ();
+        fn poll(mut self: std::pin::Pin<&mut Self>, cx: &mut std::task::Context<'_>) -> std::task::Poll<()> {
+            if self.0 == 0 { return std::task::Poll::Ready(()); }
+            self.0 -= 1;
+            cx.waker().wake_by_ref();
+            std::task::Poll::Pending
+        }
+    }
+
+    /// AsyncMemoryFS whose every filesystem call returns Pending `n` times first (public trait, no hook)
+    #[derive(Debug)]
+    struct Pending { inner: AsyncMemoryFS, n: usize }
+    use vfs::async_vfs::AsyncFileSystem;
+    #[async_trait::async_trait]
+    impl AsyncFileSystem for Pending {
+        async fn read_dir(&self, p: &str) -> VfsResult<Box<dyn Unpin + futures::Stream<Item = String> + Send>> { PendN(self.n).await; self.inner.read_dir(p).await }
+        async fn create_dir(&self, p: &str) -> VfsResult<()> { PendN(self.n).await; self.inner.create_dir(p).await }
+        async fn open_file(&self, p: &str) -> VfsResult<Box<dyn SeekAndRead + Send + Unpin>> { PendN(self.n).await; self.inner.open_file(p).await }
+        async fn create_file(&self, p: &str) -> VfsResult<Box<dyn async_std::io::Write + Send + Unpin>> { PendN(self.n).await; self.inner.create_file(p).await }
+        async fn append_file(&self, p: &str) -> VfsResult<Box<dyn async_std::io::Write + Send + Unpin>> { PendN(self.n).await; self.inner.append_file(p).await }
+        async fn metadata(&self, p: &str) -> VfsResult<vfs::VfsMetadata> { PendN(self.n).await; self.inner.metadata(p).await }
+        async fn exists(&self, p: &str) -> VfsResult<bool> { PendN(self.n).await; self.inner.exists(p).await }
+        async fn remove_file(&self, p: &str) -> VfsResult<()> { PendN(self.n).await; self.inner.remove_file(p).await }
+        async fn remove_dir(&self, p: &str) -> VfsResult<()> { PendN(self.n).await; self.inner.remove_dir(p).await }
+    }
+
     #[derive(Default)]
     pub struct ASt {
         pub paths: HashMap<String, AsyncVfsPath>,
@@ -167,6 +196,7 @@ mod adrv {
         if t[0] == "fs" {
             let root = match t[2] {
                 "amem" => AsyncVfsPath::new(AsyncMemoryFS::new()),
+                "apend" => AsyncVfsPath::new(Pending { inner: AsyncMemoryFS::new(), n: t[3].parse().unwrap() }),
                 "aalt" => AsyncVfsPath::new(AsyncAltrootFS::new(st.paths[t[3]].clone())),
                 "aovl" => { let layers: Vec<AsyncVfsPath> = t[3..].iter().map(|k| st.paths[*k].clone()).collect(); AsyncVfsPath::new(AsyncOverlayFS::new(&layers)) }
                 _ => return None,
